@@ -74,6 +74,24 @@ Extensions for markers / _parser / metadata / licenses (x3; the handlers are the
                pattern texts in ``MATCH_PATTERNS``, ``typing.cast``, ``x.__class__.__name__``, ``hash`` kept symbolic
                (``SYMBOLIC_HASH``), a method call on a value of statically unknown class dispatched over the tracked classes
                that define it (``m.serialize()``), ``if not isinstance(x, C): return …`` narrows ``x`` to ``C`` afterwards
+Second round (blocks marked `x2`; run-time additions in ``lean/PkgModel/PyRx.lean``):
+  compiled patterns  ``<compiled global>.match/.search(s)`` of a pattern registered with ``translate.regex_source``
+               becomes acceptance by the verified matcher on the regenerated term (``PyRx.rx_test Gen.<Name>…``; truth
+               value only, no groups); ``_canonicalize_regex.sub``, ``_build_tag_regex.match`` and the inline
+               ``re.match`` of ``parse_wheel_filename`` go to structure-specific primitives over the tables that
+               ``translators/names.py`` measures from the same objects (``MEASURED_PATTERNS`` / ``MEASURED_INLINE``);
+               any other ``re.match(<literal>, s)`` is accepted when the literal is a sequence of literal characters
+               and ``<atom>+`` runs whose greedy reading is the only one (``_seq_pattern``; classes swept from the
+               interpreter's parser), ``m.group("<name>")`` is resolved to the group's index
+  sets         ``set()``, ``s.add(x)`` on an owned local, ``frozenset(xs)`` / ``set(xs)``, ``x in {c1, c2}``: members in
+               insertion order without duplicates modulo the *translated* ``__eq__`` of the member class (which must
+               also define ``__hash__``) or ``==`` of plain values; hash-table order is not modelled
+  other        ``typing.cast``; ``<module-level dict of constants>.get(k[, d])`` (current contents inlined);
+               ``raise C(...) from e``; ``warnings.warn`` dropped like logging; ``.lower()`` is the full per-code-point
+               table in ``FULL_LOWER_MODULES`` (ASCII elsewhere); ``s.count(c)``; unary minus; a parameter narrowed by a
+               top-level ``if not isinstance(p, C): return/raise``; a list bound to fresh values in every branch of a
+               top-level ``if`` (or returned by a library function all of whose returns are fresh) counts as owned;
+               ``and``/``or`` keep their short circuit whenever an operand contains a lifted action
 Checks made by the translator (a failure makes the function unsupported):
   * a local changed inside a ``try`` body (other than by its last simple statement) must not be read in a handler or after
     a handler that falls through: Lean's ``try … catch`` restores the locals of the ``try`` start;
@@ -129,6 +147,28 @@ SELECTED = [
     ("Specifier.prereleases", "packaging.specifiers", "Specifier.prereleases"),
     ("Specifier.contains", "packaging.specifiers", "Specifier.contains"),
     ("Specifier.filter", "packaging.specifiers", "Specifier.filter"),
+]
+# --- x2: second round (small gaps of round one; utils.py; the rest of tags.py; platform code; SpecifierSet)
+SELECTED += [
+    ("_BaseVersion.__ne__", "packaging.version", "_BaseVersion.__ne__"),
+    ("Tag.__str__", "packaging.tags", "Tag.__str__"),
+    ("Tag.__eq__", "packaging.tags", "Tag.__eq__"),
+    ("Tag.__hash__", "packaging.tags", "Tag.__hash__"),
+    ("canonicalize_name", "packaging.utils", "canonicalize_name"),
+    ("is_normalized_name", "packaging.utils", "is_normalized_name"),
+    ("parse_tag", "packaging.tags", "parse_tag"),
+    ("parse_sdist_filename", "packaging.utils", "parse_sdist_filename"),
+    ("parse_wheel_filename", "packaging.utils", "parse_wheel_filename"),
+    ("_normalize_string", "packaging.tags", "_normalize_string"),
+    ("interpreter_name", "packaging.tags", "interpreter_name"),
+    ("interpreter_version", "packaging.tags", "interpreter_version"),
+    ("_generic_abi", "packaging.tags", "_generic_abi"),
+    ("generic_tags", "packaging.tags", "generic_tags"),
+    ("sys_tags", "packaging.tags", "sys_tags"),
+    ("_mac_arch", "packaging.tags", "_mac_arch"),
+    ("_mac_binary_formats", "packaging.tags", "_mac_binary_formats"),
+    ("_parse_glibc_version", "packaging._manylinux", "_parse_glibc_version"),
+    ("_glibc_version_string", "packaging._manylinux", "_glibc_version_string"),
 ]
 
 # classes whose instances the translated code handles as records `PyVal.obj <class name> <fields>`; attribute access on
@@ -326,6 +366,9 @@ ORACLE_CALLS["packaging.metadata"] = {
     "PurePosixPath.is_absolute", "PureWindowsPath.is_absolute", "PureWindowsPath.as_posix", "str.lower"}
 # modules in which `s.strip()` is the Unicode-aware primitive of PyMetaRt
 UNICODE_STRIP = {"packaging.metadata": ("PyMetaRt.str_strip", "PkgModel.PyMetaRt")}
+# modules in which `x in {constants}` keeps the hashability test of a set (`PyRt.contains_set`); elsewhere a set display in
+# a membership test is read as a tuple (x2)
+SET_HASH_CHECK_MODULES = {"packaging.licenses", "packaging.metadata"}
 # --- x3: licenses (C19)
 SELECTED += [("canonicalize_license_expression", "packaging.licenses", "canonicalize_license_expression")]
 # module-level tables that are regenerated as data elsewhere (`Generated/SpdxTables`): (module, name) -> run-time table name;
@@ -335,6 +378,32 @@ TABLE_IMPORT = "PkgModel.PyLic"
 # compiled patterns matched with `.match` by a hand-written matcher: (pattern text, flags) -> (primitive, import)
 MATCH_PATTERNS = {("^[A-Za-z0-9.-]+$", 32): ("PyLic.ref_match", "PkgModel.PyLic")}
 # --- x3 end ---------------------------------------------------------------------------------------------------------
+# --- x2: tables of the second round -----------------------------------------------------------------------------------
+METHODS.update({"count": ("PyRx.str_count", 1)})
+# `s.add(x)` on an owned set local: the run-time function also takes the equality function of the member class
+OTHER_MUTATORS.discard("add")
+MUTATORS.update({"add": ("PyRx.set_add", 1)})
+FRESH_CALLS |= {"set"}
+CONSUMERS |= {"frozenset", "set"}
+# modules whose strings are arbitrary text: `.lower()` is the full per-code-point table there (PyRx.str_lower_full),
+# elsewhere the ASCII run-time function
+FULL_LOWER_MODULES = {"packaging.utils"}
+# compiled patterns whose *structure* harness/translators/names.py measures into Gen.NameTables:
+# (module, global name) -> (kind, structure flag, Lean arguments)
+EXTERNAL_READS |= {"sys.implementation.name"}
+DROPPED_CALLS |= {"warnings.warn"}                 # no effect on the result (arguments are still evaluated)
+# library functions that are probes of the world outside: calls become reads of the environment table
+EXTERNAL_CALLS |= {"_glibc_version_string_confstr", "_glibc_version_string_ctypes"}
+MEASURED_PATTERNS = {
+    ("packaging.utils", "_canonicalize_regex"): ("class_plus", "Gen.NameTables.canonStructureOk", "Gen.NameTables.separators"),
+    ("packaging.utils", "_build_tag_regex"): ("two_runs", "Gen.NameTables.buildStructureOk",
+                                               "Gen.NameTables.digitTable Gen.NameTables.notDot"),
+}
+# the one inline `re.match(<literal>, x, <flags>)` of this function is measured by names.py as `^<atom>*$`
+MEASURED_INLINE = {
+    ("packaging.utils", "parse_wheel_filename"): ("Gen.NameTables.wheelNameStructureOk",
+                                                  "Gen.NameTables.wheelNameRanges Gen.NameTables.wheelNameDollar"),
+}
 
 
 # ---------------------------------------------------------------------------------------------- one function
@@ -393,7 +462,8 @@ class Fn:
                 return self.owner
             for a in args + self.node.args.kwonlyargs:
                 if a.arg == e.id and e.id not in self.param_assigned_names():
-                    return self.ann_class(a.annotation) or self.x3_guard_class(e)
+                    c = self.ann_class(a.annotation)
+                    return c if c is not None else (self.narrowed_class(e) or self.x3_guard_class(e))      # --- x2 / x3
             # a local assigned exactly once, from an expression of known class
             key = ("local", e.id)
             if key in self._class_guard:
@@ -435,6 +505,21 @@ class Fn:
                 for k in a.__mro__:
                     if self.ctx.is_tracked(k) and k in b.__mro__:
                         return k
+        return None
+
+    # --- x2: `if not isinstance(p, C): return/raise …` at the top level of the body narrows parameter p to C afterwards
+    def narrowed_class(self, e):
+        for st in self.node.body:
+            if getattr(st, "lineno", 0) >= getattr(e, "lineno", 0):
+                break
+            if isinstance(st, ast.If) and not st.orelse and not _falls_through(st.body) \
+                    and isinstance(st.test, ast.UnaryOp) and isinstance(st.test.op, ast.Not):
+                t = st.test.operand
+                if isinstance(t, ast.Call) and isinstance(t.func, ast.Name) and t.func.id == "isinstance" and len(t.args) == 2 \
+                        and isinstance(t.args[0], ast.Name) and t.args[0].id == e.id and isinstance(t.args[1], ast.Name):
+                    v = self.globals.get(t.args[1].id)
+                    if inspect.isclass(v) and self.ctx.is_tracked(v):
+                        return v
         return None
 
     def param_assigned_names(self):
@@ -546,7 +631,10 @@ class Fn:
             fresh = [st for st in body if isinstance(st, ast.Assign) and len(st.targets) == 1
                      and isinstance(st.targets[0], ast.Name) and st.targets[0].id == m and _is_fresh_list(st.value)
                      and st.lineno < first]
-            self.owned_from[m] = fresh[-1].lineno if fresh else 0
+            # x2: a top-level `if` before the first mutation whose every branch ends by binding m to a fresh list
+            fresh += [st for st in body if isinstance(st, ast.If) and st.end_lineno < first and self._if_binds_fresh(st, m)]
+            fresh.sort(key=lambda st: st.lineno)
+            self.owned_from[m] = (fresh[-1].end_lineno if isinstance(fresh[-1], ast.If) else fresh[-1].lineno) if fresh else 0
             if m in self.params() and not fresh:
                 raise Unsupported(f"parameter {m} is mutated in place")
         for n in _walk_scope(body):
@@ -568,7 +656,7 @@ class Fn:
                             raise Unsupported("a list that is mutated in place is bound by unpacking")
                     for tt, vv in pairs:
                         if isinstance(tt, ast.Name) and tt.id in self.mutated and vv is not None and not _is_fresh_list(vv) \
-                                and n.lineno >= self.owned_from[tt.id]:
+                                and not self._fresh_call(vv) and n.lineno >= self.owned_from[tt.id]:
                             raise Unsupported(f"{tt.id} is mutated in place but bound to a value that may be shared")
             if isinstance(n, ast.For):
                 for sub in ast.walk(n.target):
@@ -612,6 +700,51 @@ class Fn:
                     ok = True                                    # truth test inside a condition
                 if not ok:
                     raise Unsupported(f"{n.id} is mutated in place and used where an alias could be created")
+
+    # --- x2: freshness through branches / library functions
+    def _fresh_call(self, v, depth=0):
+        """a call of a function of the library every `return` of which hands back a freshly built list (a display, a
+        comprehension, `list(...)`, a local that only ever holds such lists, or a call of another such function)"""
+        if not (isinstance(v, ast.Call) and isinstance(v.func, ast.Name)) or depth > 3:
+            return False
+        f = self.globals.get(v.func.id)
+        if not inspect.isfunction(f) or not (f.__module__ or "").startswith("packaging"):
+            return False
+        try:
+            node = ast.parse(textwrap.dedent(inspect.getsource(f))).body[0]
+        except (OSError, SyntaxError):
+            return False
+        rets = [n for n in _walk_scope(node.body) if isinstance(n, ast.Return)]
+        if not rets:
+            return False
+        sub = Fn.__new__(Fn)
+        sub.globals = f.__globals__
+        for r in rets:
+            x = r.value
+            if x is None:
+                return False
+            if _is_fresh_list(x) or sub._fresh_call(x, depth + 1):
+                continue
+            if isinstance(x, ast.Name):
+                binds = [n for n in _walk_scope(node.body) if x.id in _targets_of(n)]
+                if binds and x.id not in [a.arg for a in node.args.args + node.args.kwonlyargs] and all(
+                        isinstance(b, ast.Assign) and len(b.targets) == 1 and isinstance(b.targets[0], ast.Name)
+                        and (_is_fresh_list(b.value) or sub._fresh_call(b.value, depth + 1)) for b in binds):
+                    continue
+            return False
+        return True
+
+    def _if_binds_fresh(self, st, m):
+        def last_bind(stmts):
+            for x in reversed(stmts):
+                if isinstance(x, ast.Assign) and len(x.targets) == 1 and isinstance(x.targets[0], ast.Name) and x.targets[0].id == m:
+                    return _is_fresh_list(x.value) or self._fresh_call(x.value)
+                if isinstance(x, ast.If):
+                    return self._if_binds_fresh(x, m)
+                if any(m in _targets_of(y) for y in _walk_scope([x])):
+                    return False
+            return False
+        return bool(st.orelse) and last_bind(st.body) and last_bind(st.orelse)
 
     def _scalar_callee(self, name):
         """a module-level function of packaging whose return annotation is bool/str/int/None: it cannot hand back an
@@ -1075,6 +1208,10 @@ class Fn:
             return
         if isinstance(e, ast.Call) and ".".join(_dotted(e.func) or []) in DROPPED_CALLS:
             for a in e.args:                     # the arguments are still evaluated (they could raise)
+                if isinstance(a, ast.Name) and a.id not in self.locals and a.id not in self.globals:      # x2: a builtin class
+                    import builtins
+                    if inspect.isclass(getattr(builtins, a.id, None)):
+                        continue
                 p, c = self.expr(a)
                 if not p:
                     self.emit(ind, f"let _ ← {c}")
@@ -1088,6 +1225,10 @@ class Fn:
             if len(e.args) != ar or e.keywords:
                 raise Unsupported(f"arguments of {e.func.attr}")
             n = lname(e.func.value.id)
+            if e.func.attr == "add":                  # --- x2: sets
+                self.ctx.imports.add("PkgModel.PyRx")
+                self.emit(ind, f"{n} ← {fn} {self.eqf_of(e.args[0])} {n} {self.val(e.args[0])}")
+                return
             self.emit(ind, f"{n} ← {fn} {n} " + " ".join(self.val(a) for a in e.args))
             return
         raise Unsupported("expression statement " + ast.dump(e)[:60])
@@ -1143,6 +1284,7 @@ class Fn:
         if special is not None:
             t = f"(← {special})"
             return f"!{t}" if negate else t
+        r = _set_display_as_tuple(r)
         rv = self.val(r)
         t = f"(← PyRt.contains {rv} {lv})"
         return f"!{t}" if negate else t
@@ -1387,6 +1529,7 @@ class Fn:
                 if special is not None:
                     neg = "!" if isinstance(op, ast.NotIn) else ""
                     return False, f"(do pure (PyVal.bool ({neg}(← {special}))))"
+                r = _set_display_as_tuple(r)
                 rv = self.val(r)
                 return False, f"PyRt.{'in_' if isinstance(op, ast.In) else 'not_in'} {lv} {rv}"
             if type(op) in _CMP:
@@ -1641,6 +1784,10 @@ class Fn:
             return False, f"{name} {r} {o} {self.val(e.args[0])} {self.val(e.args[1])}"
         if any(isinstance(a, ast.Starred) for a in e.args):
             raise Unsupported("*args in a call")
+        # ---- x2: compiled patterns resolved to regenerated data, `cast`
+        r = self.x2_call(e, f, kws)
+        if r is not None:
+            return r
         # ---- plain names: builtins, selected functions, classes
         if isinstance(f, ast.Name) and f.id not in self.locals:
             g = self.resolve_global(f.id)
@@ -1718,10 +1865,19 @@ class Fn:
                 if modname == "re" and path == "match" and len(e.args) == 2 and not kws \
                         and isinstance(e.args[0], ast.Constant) and isinstance(e.args[0].value, str):
                     pat = e.args[0].value
+                    seq = _seq_pattern(pat) if pat not in SUPPORTED_PATTERNS else None        # --- x2
+                    if seq is not None:
+                        self.ctx.imports.add("PkgModel.PyRx")
+                        return False, f"PyRx.match_seq {seq[0]} {self.val(e.args[1])}"
                     if pat not in SUPPORTED_PATTERNS:
                         raise Unsupported(f"regular expression {pat!r} has no matcher in the run-time")
                     lit = pat.replace("\\", "\\\\").replace('"', '\\"')
                     return False, f'PyRt.re_match "{lit}" {self.val(e.args[1])}'
+                if modname == "re" and path == "match" and len(e.args) in (2, 3) and isinstance(e.args[0], ast.Constant) \
+                        and (self.pyfunc.__module__, self.pyfunc.__qualname__) in MEASURED_INLINE:          # --- x2
+                    flag, targs = MEASURED_INLINE[(self.pyfunc.__module__, self.pyfunc.__qualname__)]
+                    self.ctx.imports.add("PkgModel.PyRx")
+                    return False, f"PyRx.match_class_star {flag} {targs} {self.val(e.args[1])}"
                 full = ".".join(dotted)
                 if full in EXTERNAL_CALLS and not kws:
                     args = ", ".join(self.val(a) for a in e.args)
@@ -1742,14 +1898,124 @@ class Fn:
             if f.attr == "split" and len(e.args) == 2 and not kws:
                 recv = self.val(f.value)
                 return False, f"PyRt.str_split_max {recv} {self.val(e.args[0])} {self.val(e.args[1])}"
+            if f.attr == "group" and len(e.args) == 1 and not kws and isinstance(e.args[0], ast.Constant) \
+                    and isinstance(e.args[0].value, str) and isinstance(f.value, ast.Name):                      # --- x2
+                idx = self.group_index(f.value.id, e.args[0].value)
+                return False, f"PyRt.match_group {self.val(f.value)} (PyVal.int {idx})"
+            if f.attr == "lower" and not e.args and not kws and self.pyfunc.__module__ in FULL_LOWER_MODULES:   # --- x2
+                self.ctx.imports.add("PkgModel.PyRx")
+                return False, "PyRx.str_lower_full " + self.val(f.value)
             if f.attr in METHODS:
                 fn, ar = METHODS[f.attr]
+                if fn.startswith("PyRx."):
+                    self.ctx.imports.add("PkgModel.PyRx")
                 if kws or len(e.args) != ar:
                     raise Unsupported(f"arguments of method {f.attr}")
                 recv = self.val(f.value)
                 return False, fn + " " + recv + "".join(" " + self.val(a) for a in e.args)
             raise Unsupported(f"method {f.attr}")
         raise Unsupported("call of a computed function")
+
+    # ------------------------------------------------------------------ x2: patterns, sets
+    def x2_call(self, e, f, kws):
+        """calls resolved at translation time to regenerated data: `<compiled pattern global>.match/.search/.sub(...)`,
+        `typing.cast(T, v)`; None when `e` is not one of these"""
+        if isinstance(f, ast.Name) and f.id == "cast" and f.id not in self.locals and len(e.args) == 2 and not kws:
+            import typing
+            if self.globals.get("cast") is typing.cast:
+                return self.expr(e.args[1])                      # the type argument has no run-time effect
+        # `<module-level dict of constants>.get(k)` / `.get(k, d)`: the current contents of the dict, as an association list
+        if isinstance(f, ast.Attribute) and f.attr == "get" and isinstance(f.value, ast.Name) and f.value.id not in self.locals \
+                and isinstance(self.globals.get(f.value.id), dict) and not kws and len(e.args) in (1, 2):
+            d = self.globals[f.value.id]
+            try:
+                rows = ", ".join(f"({lconst(k)}, {lconst(v)})" for k, v in d.items())
+            except Unsupported:
+                return None
+            self.ctx.imports.add("PkgModel.PyRx")
+            dflt = self.val(e.args[1]) if len(e.args) == 2 else "PyVal.none"
+            return False, f"PyRx.const_dict_get [{rows}] {self.val(e.args[0])} {dflt}"
+        if not (isinstance(f, ast.Attribute) and isinstance(f.value, ast.Name) and f.value.id not in self.locals
+                and type(self.globals.get(f.value.id)).__name__ == "Pattern" and not kws):
+            return None
+        pat = self.globals[f.value.id]
+        key = (self.pyfunc.__module__, f.value.id)
+        import re as _re
+        if f.attr in ("match", "search") and len(e.args) == 1:
+            name = _registered_regex(pat)
+            if name is not None and not (pat.flags & _re.MULTILINE):
+                self.ctx.imports.add("PkgModel.PyRx")
+                self.ctx.imports.add(f"PkgModel.Generated.{name}")
+                return False, f"PyRx.rx_test Gen.{name}.supported Gen.{name}.ranges Gen.{name}.rx {self.val(e.args[0])}"
+            if key in MEASURED_PATTERNS and MEASURED_PATTERNS[key][0] == "two_runs" and f.attr == "match":
+                _, flag, targs = MEASURED_PATTERNS[key]
+                self.ctx.imports.add("PkgModel.PyRx")
+                return False, f"PyRx.match_two_runs {flag} {targs} {self.val(e.args[0])}"
+        if f.attr == "sub" and len(e.args) == 2 and key in MEASURED_PATTERNS and MEASURED_PATTERNS[key][0] == "class_plus":
+            _, flag, targs = MEASURED_PATTERNS[key]
+            self.ctx.imports.add("PkgModel.PyRx")
+            return False, f"PyRx.sub_class_plus {flag} {targs} {self.val(e.args[0])} {self.val(e.args[1])}"
+        return None
+
+    def group_index(self, local, name):
+        """`m.group("<name>")`: the index of the named group, when local `m` is bound once, by `re.match(<literal>, …)`"""
+        binds = [n for n in _walk_scope(self.node.body) if local in _targets_of(n)]
+        if len(binds) == 1 and isinstance(binds[0], (ast.Assign, ast.AnnAssign)):
+            v = binds[0].value
+            if isinstance(v, ast.Call) and _dotted(v.func) == ["re", "match"] and v.args and isinstance(v.args[0], ast.Constant):
+                seq = _seq_pattern(v.args[0].value)
+                if seq is not None and name in seq[1]:
+                    return seq[1][name]
+        raise Unsupported(f"group name {name!r} of a match object whose pattern is not known")
+
+    def eqf_of_class(self, c):
+        """the equality function sets use for members of tracked class c (its translated `__eq__`), as a Lean term"""
+        impl = self.ctx.lookup(c, "__eq__")
+        if not inspect.isfunction(impl):
+            raise Unsupported(f"set of {c.__name__} without a Python-level __eq__")
+        for d in self.ctx.subclasses(c):
+            if self.ctx.lookup(d, "__eq__") is not impl:
+                raise Unsupported("set members whose subclasses override __eq__")
+        if not inspect.isfunction(self.ctx.lookup(c, "__hash__")):
+            raise Unsupported(f"set of {c.__name__} without a Python-level __hash__")
+        fn = self.ctx.require(impl)
+        return f"(fun __a __b => do pure (PyRt.eqResult false (← {self.call_selected(fn, ['__a', '__b'])})))"
+
+    def eqf_of(self, a):
+        """equality function for a set that receives the value of expression `a`"""
+        c = self.static_class(a)
+        if c is not None:
+            return self.eqf_of_class(c)
+        if self.is_simple_value(a):
+            return "PyRx.eq_plain"
+        raise Unsupported("set member of a class that is not known statically")
+
+    def eqf_of_elements(self, it):
+        """equality function for `frozenset(it)` / `set(it)`"""
+        if isinstance(it, ast.Name) and it.id in self.mutated:          # an owned set local: members keep their function
+            adds = [n.value.args[0] for n in _walk_scope(self.node.body)
+                    if isinstance(n, ast.Expr) and isinstance(n.value, ast.Call) and isinstance(n.value.func, ast.Attribute)
+                    and isinstance(n.value.func.value, ast.Name) and n.value.func.value.id == it.id
+                    and n.value.func.attr == "add" and len(n.value.args) == 1]
+            if adds:
+                return self.eqf_of(adds[0])
+        if isinstance(it, ast.Call) and isinstance(it.func, ast.Name) and it.func.id == "map" and len(it.args) == 2 \
+                and isinstance(it.args[0], ast.Name):
+            v = self.globals.get(it.args[0].id)
+            if inspect.isclass(v) and self.ctx.is_tracked(v):
+                return self.eqf_of_class(v)
+        if isinstance(it, (ast.GeneratorExp, ast.ListComp)) and len(it.generators) == 1:
+            c = None
+            self._bound = self._bound + [{t.id for t in ast.walk(it.generators[0].target) if isinstance(t, ast.Name)}]
+            try:
+                c = self.static_class(it.elt)
+            finally:
+                self._bound = self._bound[:-1]
+            if c is not None:
+                return self.eqf_of_class(c)
+        if self.elem_simple(it):
+            return "PyRx.eq_plain"
+        raise Unsupported("set of members whose class is not known statically")
 
     def singledispatch_call(self, name, sd, args, kws):
         """a call of a functools.singledispatch function: dispatch on the run-time class of the first argument over the
@@ -1826,6 +2092,13 @@ class Fn:
             t = self.str_of(args[0])
             if t is not None:
                 return False, t
+        if name in ("set", "frozenset") and not kws and len(args) <= 1:                 # --- x2: sets
+            self.ctx.imports.add("PkgModel.PyRx")
+            if not args:
+                if name == "set":
+                    return False, "PyRx.set_new"
+                raise Unsupported("frozenset() without an argument")
+            return False, f'PyRx.set_of "{name}" {self.eqf_of_elements(args[0])} {self.val(args[0])}'
         if name in BUILTINS:
             fn, ar = BUILTINS[name]
             if kws or len(args) != ar:
@@ -2516,7 +2789,8 @@ class Fn:
 
     def x3_in(self, lv, r):
         """`x in <set display of constants>` / `x in <regenerated table>`: an `M Bool` term, else None"""
-        if isinstance(r, ast.Set) and all(isinstance(x, ast.Constant) and isinstance(x.value, (str, int)) for x in r.elts):
+        if isinstance(r, ast.Set) and self.pyfunc.__module__ in SET_HASH_CHECK_MODULES \
+                and all(isinstance(x, ast.Constant) and isinstance(x.value, (str, int)) for x in r.elts):
             return "PyRt.contains_set (PyVal.tuple [" + ", ".join(lconst(x.value) for x in r.elts) + f"]) {lv}"
         t = self.x3_table(r)
         if t is not None:
@@ -2694,7 +2968,8 @@ class Fn:
                 fn, imp = EXTERNAL_MODULE_CALLS[(self.globals[dotted[0]].__name__, dotted[1])]
                 self.ctx.imports.add(imp)
                 return False, f"{fn} {self.val(e.args[0])}"
-            if c is None and not is_module and f.attr not in METHODS and f.attr not in MUTATORS and self.ctx.defined_by_tracked(f.attr) \
+            is_global = isinstance(f.value, ast.Name) and f.value.id not in self.locals and f.value.id not in self.bound_stack()
+            if c is None and not is_module and not is_global and f.attr not in METHODS and f.attr not in MUTATORS and self.ctx.defined_by_tracked(f.attr) \
                     and not kws and not any(isinstance(a, ast.Starred) for a in e.args):
                 recv = self.val(f.value)
                 name = self.x3_dyn_method(f.attr, len(e.args))
@@ -2704,6 +2979,75 @@ class Fn:
 
 
 _CMP = {ast.Lt: "lt", ast.LtE: "le", ast.Gt: "gt", ast.GtE: "ge"}
+
+
+def _set_display_as_tuple(r):
+    """x2: `x in {c1, c2, …}` for constants is membership in the tuple of the same constants"""
+    if isinstance(r, ast.Set) and all(isinstance(x, ast.Constant) and isinstance(x.value, (str, int)) for x in r.elts):
+        return ast.Tuple(elts=list(r.elts), ctx=ast.Load())
+    return r
+
+
+def _seq_pattern(pat, flags=0):
+    """x2: a literal pattern as a list of `PyRx.SeqItem`s (Lean text) + its group-name index, or None when the pattern is not
+    a sequence of literal characters and `<atom>+` runs whose greedy reading is the only one"""
+    import re
+    from re import _parser as P
+    import translate as T
+    try:
+        tree = P.parse(pat, flags)
+    except Exception:
+        return None
+    cflags = re.compile(pat, flags).flags
+    items = []            # ("lit", cp) | ("run", capture, ranges)
+    for op, av in tree:
+        if op is P.LITERAL:
+            items.append(("lit", av))
+            continue
+        cap = False
+        if op is P.SUBPATTERN:
+            g, add, dele, body = av
+            body = list(body)
+            if add or dele or g is None or len(body) != 1:
+                return None
+            op, av = body[0]
+            cap = True
+        if op is not P.MAX_REPEAT:
+            return None
+        lo, hi, body = av
+        body = list(body)
+        if lo != 1 or hi != P.MAXREPEAT or len(body) != 1 or body[0][0] not in (P.IN, P.LITERAL, P.ANY, P.NOT_LITERAL):
+            return None
+        _, rs = T.sweep(tree.state, cflags, *body[0])
+        items.append(("run", cap, list(rs)))
+    # the greedy reading must be the only one
+    def inside(rs, cp):
+        return any(lo <= cp <= hi for lo, hi in rs)
+    for a, b in zip(items, items[1:]):
+        if a[0] == "run":
+            if b[0] == "lit" and inside(a[2], b[1]):
+                return None
+            if b[0] == "run" and any(inside(a[2], lo) or inside(a[2], hi) or inside(b[2], x) for lo, hi in b[2] for x, _ in a[2]):
+                return None
+    out = []
+    for it in items:
+        if it[0] == "lit":
+            out.append(f"PyRx.SeqItem.lit {it[1]}")
+        else:
+            out.append(f"PyRx.SeqItem.run {'true' if it[1] else 'false'} [" + ", ".join(f"({lo}, {hi})" for lo, hi in it[2]) + "]")
+    return "[" + ", ".join(out) + "]", dict(re.compile(pat, flags).groupindex)
+
+
+def _registered_regex(pat):
+    """x2: the name under which `translate.regex_source` regenerates this very pattern object (Gen.<name>), else None"""
+    import translate
+    for name, thunk in translate.REGEX_SOURCES.items():
+        try:
+            if thunk()[0] is pat:
+                return name
+        except Exception:
+            continue
+    return None
 _MISSING = object()
 
 
